@@ -277,4 +277,260 @@ theorem dlvInv_snapLocal {s : State} {th : Th} {k : Key} {p : Pub} {rest : List 
       · rename_i e; simp only at hr; rw [e] at hr; simp at hr
       · rfl
 
+
+theorem dlvInv_deliver {s : State} {th : Th} {sid : Nat} {rs : List Rcv} {k : Key} {p : Pub} {rest : List MOp} {r0 : Rcv}
+    (h : DlvInv s) (hprog : s.prog th = .deliver sid rs k p :: rest) (hr0 : r0 ∈ rs) :
+    DlvInv ((s.setCtx th.ctx { (s.ctx th.ctx) with
+                got := upd (s.ctx th.ctx).got r0 ((s.ctx th.ctx).got r0 ++ [⟨k, p, sid⟩]) }).setProg th
+              (if rs.erase r0 = [] then rest else .deliver sid (rs.erase r0) k p :: rest)) := by
+  have hrest : noDlv rest := by have := h.tail th; rw [hprog] at this; exact this
+  have hhead : headDlv (s.prog th) = some (sid, rs, k, p) := by rw [hprog]; rfl
+  obtain ⟨rs0, w1, w2, w3, w4, w5⟩ := h.wf th sid rs k p hhead
+  -- the queues after the step
+  have hgot : ∀ c r it, it ∈ ((if c = th.ctx then { (s.ctx th.ctx) with
+                got := upd (s.ctx th.ctx).got r0 ((s.ctx th.ctx).got r0 ++ [⟨k, p, sid⟩]) } else s.ctx c).got r) ↔
+        (it ∈ (s.ctx c).got r ∨ (c = th.ctx ∧ r = r0 ∧ it = ⟨k, p, sid⟩)) := by
+    intro c r it
+    by_cases hc : c = th.ctx
+    · subst hc
+      simp only [if_true, upd]
+      by_cases hr : r = r0
+      · subst hr; simp
+      · simp [hr]
+    · simp [hc]
+  constructor
+  · intro th'
+    simp only [setProg_prog]
+    split
+    · split
+      · exact noDlv_tail hrest
+      · exact hrest
+    · exact h.tail th'
+  · intro th' sid' rs' k' p' hx
+    simp only [setProg_prog] at hx
+    simp only [setProg_ctx, setCtx_ctx, setProg_snaps, setCtx_snaps]
+    split at hx
+    · rename_i e; subst e
+      split at hx
+      · rw [headDlv_of_noDlv hrest] at hx; simp at hx
+      · rename_i hne
+        simp only [headDlv, Option.some.injEq, Prod.mk.injEq] at hx
+        obtain ⟨rfl, rfl, rfl, rfl⟩ := hx
+        refine ⟨rs0, w1, w2.erase _, hne, fun r hr => w4 r (List.mem_of_mem_erase hr), ?_⟩
+        intro r hr it hit
+        rw [hgot] at hit
+        rcases hit with hit | ⟨-, rfl, -⟩
+        · exact w5 r (List.mem_of_mem_erase hr) it hit
+        · exact absurd hr (by rw [w2.mem_erase_iff]; simp)
+    · rename_i hne
+      obtain ⟨rs1, h1, h2, h3, h4, h5⟩ := h.wf th' sid' rs' k' p' hx
+      refine ⟨rs1, h1, h2, h3, h4, ?_⟩
+      intro r hr it hit
+      rw [hgot] at hit
+      rcases hit with hit | ⟨-, -, rfl⟩
+      · exact h5 r hr it hit
+      · intro e
+        simp only at e
+        subst e
+        exact hne (h.uniq th' th _ _ _ _ _ _ _ hx hhead)
+  · intro th1 th2 sid' rs1 k1 p1 rs2 k2 p2 hx1 hx2
+    simp only [setProg_prog] at hx1 hx2
+    have key : ∀ th' sd rs' k' p', headDlv (if th' = th then (if rs.erase r0 = [] then rest else .deliver sid (rs.erase r0) k p :: rest) else s.prog th') = some (sd, rs', k', p') →
+        ∃ rs'' k'' p'', headDlv (s.prog th') = some (sd, rs'', k'', p'') := by
+      intro th' sd rs' k' p' hx
+      split at hx
+      · rename_i e; subst e
+        split at hx
+        · rw [headDlv_of_noDlv hrest] at hx; simp at hx
+        · simp only [headDlv, Option.some.injEq, Prod.mk.injEq] at hx
+          obtain ⟨rfl, -, -, -⟩ := hx
+          exact ⟨_, _, _, hhead⟩
+      · exact ⟨_, _, _, hx⟩
+    obtain ⟨_, _, _, y1⟩ := key _ _ _ _ _ hx1
+    obtain ⟨_, _, _, y2⟩ := key _ _ _ _ _ hx2
+    exact h.uniq _ _ _ _ _ _ _ _ _ y1 y2
+  · intro c r it hit
+    simp only [setProg_ctx, setCtx_ctx] at hit
+    simp only [setProg_snaps, setCtx_snaps]
+    rw [hgot] at hit
+    rcases hit with hit | ⟨rfl, rfl, rfl⟩
+    · exact h.got_snap c r it hit
+    · exact ⟨rs0, w1, w4 _ hr0⟩
+  · intro c r
+    simp only [setProg_ctx, setCtx_ctx]
+    by_cases hc : c = th.ctx
+    · subst hc
+      simp only [if_true, upd]
+      by_cases hr : r = r0
+      · subst hr
+        simp only [if_true, List.map_append, List.map_cons, List.map_nil]
+        rw [List.nodup_append]
+        refine ⟨h.got_once _ _, by simp, ?_⟩
+        intro a ha b hb
+        simp only [List.mem_singleton] at hb
+        subst hb
+        simp only [List.mem_map] at ha
+        obtain ⟨it, hit, rfl⟩ := ha
+        exact w5 r hr0 it hit
+      · simp only [hr, if_false]; exact h.got_once _ _
+    · simp only [hc, if_false]; exact h.got_once _ _
+  · intro sid' sn hs r hr
+    simp only [setProg_snaps, setCtx_snaps] at hs
+    simp only [setProg_ctx, setCtx_ctx, setProg_prog]
+    rcases h.all sid' sn hs r hr with ⟨it, h1, h2⟩ | ⟨th0, rs1, h1, h2, h3⟩
+    · left; exact ⟨it, (hgot _ _ _).2 (Or.inl h1), h2⟩
+    · by_cases e : th0 = th
+      · subst e
+        rw [hhead] at h2
+        simp only [Option.some.injEq, Prod.mk.injEq] at h2
+        obtain ⟨rfl, rfl, rfl, rfl⟩ := h2
+        by_cases er : r = r0
+        · left
+          exact ⟨⟨sn.k, sn.p, sid⟩, (hgot _ _ _).2 (Or.inr ⟨h1.symm, er, rfl⟩), rfl⟩
+        · right
+          have hm : r ∈ rs.erase r0 := by rw [w2.mem_erase_iff]; exact ⟨er, h3⟩
+          refine ⟨th0, rs.erase r0, h1, ?_, hm⟩
+          simp only [if_true]
+          split
+          · rename_i e0; rw [e0] at hm; simp at hm
+          · rfl
+      · right
+        exact ⟨th0, rs1, h1, by simp only [e, if_false]; exact h2, h3⟩
+
+
+theorem dlvInv_micro {s s' : State} {th : Th} {ch ch2 : Nat} {op : MOp} {rest : List MOp} {o : Out}
+    (h : DlvInv s) (hset : SetsInv s) (hprog : s.prog th = op :: rest)
+    (hs : microStep s th ch ch2 op rest = some (s', o)) : DlvInv s' := by
+  by_cases hd : op.isDeliver = true
+  · cases op <;> simp only [MOp.isDeliver] at hd <;> try contradiction
+    rename_i sid rs k p
+    simp only [microStep] at hs
+    split at hs
+    · rename_i hmem
+      simp only [Option.some.injEq, Prod.mk.injEq] at hs
+      obtain ⟨rfl, -⟩ := hs
+      exact dlvInv_deliver h hprog hmem
+    · simp at hs
+  · by_cases hl : op.isSnapLocal = true
+    · cases op <;> simp only [MOp.isSnapLocal] at hl <;> try contradiction
+      rename_i k p
+      simp only [microStep, Option.some.injEq, Prod.mk.injEq] at hs
+      obtain ⟨rfl, -⟩ := hs
+      exact dlvInv_snapLocal h hset hprog
+    · have hd' : op.isDeliver = false := by simpa using hd
+      have hl' : op.isSnapLocal = false := by simpa using hl
+      have hrest : noDlv rest := by have := h.tail th; rw [hprog] at this; exact this
+      obtain ⟨h1, h2, h3⟩ := microStep_other hd' hl' hrest hs
+      have hf := microStep_frame hs
+      refine h.of_quiet h1 h2 (fun th' => ?_)
+      by_cases e : th' = th
+      · subst e
+        right
+        refine ⟨h3, ?_⟩
+        rw [hprog]
+        cases op <;> simp_all [headDlv, MOp.isDeliver]
+      · left; exact hf.prog_other th' e
+
+theorem dlvInv_step {s s' : State} {a : Act} {o : Out} (h : DlvInv s) (hset : SetsInv s)
+    (hs : step s a = some (s', o)) : DlvInv s' := by
+  cases a with
+  | micro th ch ch2 =>
+    simp only [step] at hs
+    split at hs
+    · split at hs
+      · simp at hs
+      · rename_i op rest hprog
+        exact dlvInv_micro h hset hprog hs
+    · simp at hs
+  | begin c t op =>
+    simp only [step] at hs
+    split at hs
+    · rename_i hc
+      have hnone : headDlv (s.prog (.user c t)) = none := by rw [hc.2]; rfl
+      cases op <;> simp at hs <;> obtain ⟨rfl, -⟩ := hs <;>
+        (refine h.of_quiet (by simp) (fun c' => by simp) (fun th' => ?_)
+         simp only [setProg_prog]
+         split
+         · rename_i e; subst e; right; exact ⟨noDlv_beginProg _ _ _ _, hnone⟩
+         · left; rfl)
+    · simp at hs
+  | cb c ok =>
+    simp only [step] at hs
+    split at hs
+    · rename_i hc
+      have hnone : headDlv (s.prog (.sock c)) = none := by rw [hc.2]; rfl
+      split at hs
+      · simp at hs
+      · split at hs
+        · simp at hs
+        · rename_i heq
+          obtain ⟨hcx, hpx, hsx, -, -, hpr⟩ := smSendStep_frame heq
+          simp only [Option.some.injEq, Prod.mk.injEq] at hs
+          obtain ⟨rfl, -⟩ := hs
+          refine h.of_quiet (by simp [hsx]) (fun c' => by simp [hcx]; split <;> simp_all) (fun th' => ?_)
+          simp only [setProg_prog, hpx, setCtx_prog]
+          split
+          · rename_i e; subst e; right
+            refine ⟨?_, hnone⟩
+            rcases hpr with e | e <;> rw [e]
+            · exact noDlv_nil
+            · exact noDlv_onSendFail _
+          · left; rfl
+      · split at hs
+        all_goals
+          simp at hs; obtain ⟨rfl, -⟩ := hs
+          refine h.of_quiet (by simp) (fun c' => by simp; split <;> simp_all) (fun th' => ?_)
+          simp only [setProg_prog, setCtx_prog]
+          split
+          · rename_i e; subst e; right; exact ⟨by simp [noDlv, MOp.isDeliver], hnone⟩
+          · left; rfl
+    · simp at hs
+  | arrive cn cli =>
+    simp only [step] at hs
+    split at hs
+    · rename_i hc
+      have hnone : headDlv (s.prog (.sock ((s.conn cn).half cli).owner)) = none := by rw [hc.2.2.1]; rfl
+      split at hs
+      · simp at hs
+      · simp only [Option.some.injEq, Prod.mk.injEq] at hs
+        obtain ⟨rfl, -⟩ := hs
+        refine h.of_quiet (by simp [State.setProg]) (fun c' => by simp [State.setProg]) (fun th' => ?_)
+        simp only [State.setProg, upd]
+        split
+        · rename_i e; subst e; right; exact ⟨noDlv_dispatch _ _, hnone⟩
+        · left; rfl
+    · simp at hs
+  | eof cn cli =>
+    simp only [step] at hs
+    split at hs
+    · rename_i hc
+      have hnone : headDlv (s.prog (.sock ((s.conn cn).half cli).owner)) = none := by rw [hc.2.2.1]; rfl
+      simp only [Option.some.injEq, Prod.mk.injEq] at hs
+      obtain ⟨rfl, -⟩ := hs
+      refine h.of_quiet (by simp) (fun c' => by simp) (fun th' => ?_)
+      simp only [setProg_prog]
+      split
+      · rename_i e; subst e; right; exact ⟨by simp [noDlv, MOp.isDeliver], hnone⟩
+      · left; rfl
+    · simp at hs
+  | connect a p =>
+    simp only [step] at hs
+    split at hs
+    · simp only [Option.some.injEq, Prod.mk.injEq] at hs
+      obtain ⟨rfl, -⟩ := hs
+      refine h.of_quiet (by simp) (fun c' => by simp; repeat' split <;> simp_all) (fun th' => Or.inl (by simp))
+    · simp at hs
+  | stop c =>
+    simp only [step] at hs
+    split at hs
+    · simp only [Option.some.injEq, Prod.mk.injEq] at hs
+      obtain ⟨rfl, -⟩ := hs
+      refine h.of_quiet (by simp) (fun c' => by simp; repeat' split <;> simp_all) (fun th' => Or.inl (by simp))
+    · simp at hs
+
+theorem dlvInv_reach {s : State} (h : Reach s) : DlvInv s := by
+  induction h with
+  | init => exact dlvInv_init
+  | step hr hs ih => exact dlvInv_step ih (setsInv_reach hr) hs
+
 end QmiModel.PubSub
